@@ -10,7 +10,7 @@
 //   g4 <via> <Name> <id> <int>     Name(id, int)                       -> "I r"
 //   g5 <via> <Name> <id> <hex|NULL>Name(id, const char*)               -> "I r"
 //   g6 <via> <Name> <id>           void Name(id), stdout captured      -> "O hex"
-//   cell <id> <row> <col>          GetSelectedOutputValue / C++ / Value2 / ValueF(col+1)
+//   cell <id> <row> <col> [cap]    GetSelectedOutputValue / C++ / Value2 (buffer of cap chars) / ValueF(col+1, buffer of cap chars)
 //   setcb <via> <id>               SetBasicCallback (c, p) / SetBasicFortranCallback (fc) / …F (f)
 //   version                        GetVersionString / IPhreeqc::GetVersionString / GetVersionStringF
 //   loaddb <via> <id> | loadbad <via> <id> | defsel <via> <id> <n> <hex|->      (PH_DB = database path)
@@ -133,10 +133,14 @@ int main(){
         case TT_LONG:return "L"+std::to_string(v.lVal);case TT_DOUBLE:return "D"+hx::hexd(v.dVal);case TT_STRING:return "S"+hx::hex(v.sVal?v.sVal:"");} return std::string("?");};
       VAR v1; VarInit(&v1); int rc=GetSelectedOutputValue(id,r,c,&v1); std::string s1=show(v1); VarClear(&v1);
       std::string s2="dead"; int rcpp=-77; if(p){ VAR v2; VarInit(&v2); rcpp=p->GetSelectedOutputValue(r,c,&v2); s2=show(v2); VarClear(&v2);}
-      int vt=-1; double d=0; char sv[FBUF]; memset(sv,'#',FBUF); int r2=GetSelectedOutputValue2(id,r,c,&vt,&d,sv,FBUF);
-      int vtf=-1; double df=0; char svf[FBUF]; memset(svf,'#',FBUF); int lenf=FBUF; int cf=c+1; int rf=GetSelectedOutputValueF(&id,&r,&cf,&vtf,&df,svf,&lenf);
-      out<<"I "<<rc<<" "<<s1<<" | cpp "<<rcpp<<" "<<s2<<" | v2 "<<r2<<" "<<vt<<" "<<hx::hexd(d)<<" "<<hx::hex(std::string(sv,strnlen(sv,FBUF)))
-               <<" | f "<<rf<<" "<<vtf<<" "<<hx::hexd(df)<<" "<<fstr(svf,FBUF,lenf)<<"\n";
+      // caller buffers of `capn` characters (default FBUF), 8 guard characters behind them
+      int capn = w.size()>4 ? arg(4) : FBUF;
+      std::vector<char> sv(capn+8,'#'), svf(capn+8,'#');
+      int vt=-1; double d=0; int r2=GetSelectedOutputValue2(id,r,c,&vt,&d,sv.data(),capn);
+      int vtf=-1; double df=0; int lenf=capn; int cf=c+1; int rf=GetSelectedOutputValueF(&id,&r,&cf,&vtf,&df,svf.data(),&lenf);
+      bool intact=true; for(int k=capn;k<capn+8;k++) intact = intact && sv[k]=='#' && svf[k]=='#';
+      out<<"I "<<rc<<" "<<s1<<" | cpp "<<rcpp<<" "<<s2<<" | v2 "<<r2<<" "<<vt<<" "<<hx::hexd(d)<<" "<<hx::hex(std::string(sv.data(),strnlen(sv.data(),capn)))
+               <<" | f "<<rf<<" "<<vtf<<" "<<hx::hexd(df)<<" "<<fstr(svf.data(),capn,lenf)<<(intact?"":":OVERRUN")<<"\n";
     }
     else out<<"bad-op\n";
     } catch(const std::exception& e){ out<<"bad-op "<<e.what()<<"\n"; }
